@@ -294,7 +294,7 @@ def zonespec(ctx):
     rnd = random.Random(ctx.sub_seed("c19z"))
     specs = ["", ":", "x:", ":x", "iata:", "iata:FRA", "nomap:KEY", "+01:00", "-23:59", "+99:99", "+1", "+0100x", "localtime",
              "UTC", "TAI", "GPS", "Europe/Berlin/", "../../../etc/passwd", "/etc/passwd", "/dev/null", "/", "."]
-    for n in (55, 56, 57, 63, 64, 65, 255, 256, 1000, 3070, 3071, 3072, 5000):
+    for n in (55, 56, 57, 63, 64, 65, 255, 256, 1000, 3070, 3071, 3072, 4094, 4095, 4096, 4097, 5000):
         specs.append("A" * n)
         specs.append("Europe/" + "B" * n)
         specs.append("m:" + "K" * n)
@@ -305,14 +305,18 @@ def zonespec(ctx):
     try:
         for sp in specs:
             for opt in ("--zone", "--from-zone"):
-                env = tools.base_env(ctx.build, "san", {"TZMAP_DIR": rnd.choice((d, "/nonexistent", d + "/" + "x" * 300))})
+                # TZMAP_DIR: existing, missing, long, and exactly at / next to PATH_MAX
+                tzdir = rnd.choice(("@tmp", "/nonexistent", "@tmp/" + "x" * 300, "/" + "y" * 4094, "/" + "y" * 4095, "/" + "y" * 4096))
+                env = tools.base_env(ctx.build, "san", {"TZMAP_DIR": tzdir.replace("@tmp", d)})
                 r = tools.run([ctx.build.tool("dconv", "san"), opt, sp, "2012-07-01T12:00:00", "1970-01-01T00:00:00"], env=env, timeout=20)
                 sub.evaluations += 1
                 if len(sp) > 50:
                     sub.nt((sp[:8], len(sp), opt))
                 if r.crashed or r.timed_out or r.rc not in (0, 1, 2):
-                    V.add("zonespec:%s" % ("long" if len(sp) > 50 else "odd"), {"spec": sp, "opt": opt, "kind": "zonespec"},
-                          expected="exit 0/1/2, no sanitizer report", actual=r.brief(), weight=len(sp))
+                    sig = fuzzrun.crash_signature(r.err.decode("latin-1")) if r.sanitizer else ("timeout" if r.timed_out else "rc=%s" % r.rc)
+                    V.add("zonespec:%s:%s" % ("long" if len(sp) > 50 else "odd", sig),
+                          {"spec": sp, "opt": opt, "tzmap_dir": tzdir, "kind": "zonespec"},
+                          expected="exit 0/1/2, no sanitizer report", actual=r.brief(), weight=len(sp) + len(tzdir))
         # several zones in one run (the zone cache)
         zs = ["Z%058d" % i for i in range(4)] + ZONEPOOL[:5] + ["Etc/GMT+1", "Etc/GMT+10", "Etc/GMT+1"]
         r = tools.run([ctx.build.tool("dzone", "san")] + zs + ["2012-07-01T12:00:00"], env=tools.base_env(ctx.build, "san"), timeout=20)
@@ -341,8 +345,13 @@ def replay(ctx, subname, case):
         crashed, err = fuzzrun.run_single(ctx.build, case["target"], bytes.fromhex(case["input_hex"]), timeout_s=60)
         return {"stderr": err[-1500:]} if crashed else None
     if k == "zonespec":
-        r = tools.run([ctx.build.tool("dconv", "san"), case["opt"], case["spec"], "2012-07-01T12:00:00", "1970-01-01T00:00:00"],
-                      env=tools.base_env(ctx.build, "san"), timeout=20)
+        d = tempfile.mkdtemp(prefix="c19zs-", dir=ctx.build.root)
+        try:
+            extra = {"TZMAP_DIR": case["tzmap_dir"].replace("@tmp", d)} if case.get("tzmap_dir") else None
+            r = tools.run([ctx.build.tool("dconv", "san"), case["opt"], case["spec"], "2012-07-01T12:00:00", "1970-01-01T00:00:00"],
+                          env=tools.base_env(ctx.build, "san", extra), timeout=20)
+        finally:
+            shutil.rmtree(d, ignore_errors=True)
         return r.brief() if (r.crashed or r.timed_out or r.rc not in (0, 1, 2)) else None
     if k == "zonespec-many":
         r = tools.run([ctx.build.tool("dzone", "san")] + case["spec"] + ["2012-07-01T12:00:00"], env=tools.base_env(ctx.build, "san"), timeout=20)
